@@ -35,10 +35,10 @@ import (
 const Prop = "C05"
 
 type Fixture struct {
-	W       *world.World
-	ABIs    precomp.ABIs
+	W        *world.World
+	ABIs     precomp.ABIs
 	S, Wd, T int
-	All     []string
+	All      []string
 }
 
 func e17(n int64) sdkmath.Int { return sdkmath.NewInt(n).Mul(sdkmath.NewInt(100000000000000000)) }
@@ -142,10 +142,10 @@ func leafFamily(l *calltree.Leaf) string {
 }
 
 type Scenario struct {
-	Root     *calltree.Frame
-	Leaf     *calltree.Leaf
-	LeafIn   int // frame id holding the leaf (-1 none)
-	TxValue  int64
+	Root    *calltree.Frame
+	Leaf    *calltree.Leaf
+	LeafIn  int // frame id holding the leaf (-1 none)
+	TxValue int64
 }
 
 // Trees enumerates the family.
@@ -223,6 +223,7 @@ type RunState struct {
 	Code    uint32
 	VMError string
 	Logs    int
+	LogList []string // index|address|first topic of every log in the receipt
 	Stores  map[string]map[string]string
 	Supply  sdkmath.Int
 }
@@ -246,6 +247,13 @@ func (f *Fixture) Exec(sc Scenario, skip map[int]bool) RunState {
 	if tr, err := evmtypes.DecodeTxResponse(r.Data); err == nil {
 		out.VMError = tr.VmError
 		out.Logs = len(tr.Logs)
+		for _, l := range tr.Logs {
+			t0 := ""
+			if len(l.Topics) > 0 {
+				t0 = l.Topics[0]
+			}
+			out.LogList = append(out.LogList, fmt.Sprintf("%d|%s|%s", l.Index, l.Address, t0))
+		}
 	}
 	ctx = w.App.BaseApp.VerifDeliverCtx()
 	for _, s := range f.All {
@@ -380,6 +388,8 @@ func Worker(shard, n int, tier string) *engine.Result {
 		}
 		if a.Logs != b.Logs {
 			viol("logs", "logs emitted inside a reverted frame survive in the receipt", map[string]any{"logs": a.Logs, "want": b.Logs})
+		} else if fmt.Sprint(a.LogList) != fmt.Sprint(b.LogList) {
+			viol("logs", "the receipt's logs (index, address, topic) differ from those of the execution without the reverted frames", map[string]any{"logs": a.LogList, "want": b.LogList})
 		}
 		if !a.Supply.Equal(b.Supply) {
 			viol("supply", "total supply differs from the execution in which the reverted frames did nothing", map[string]any{"got": a.Supply.String(), "want": b.Supply.String()})
@@ -407,6 +417,7 @@ func Worker(shard, n int, tier string) *engine.Result {
 		}
 	}
 	revisitWorker(f, res, tier, shard, n)
+	SdWorker(f, res, tier, shard, n)
 	return res
 }
 
@@ -551,6 +562,164 @@ func revisitWorker(f *Fixture, res *engine.Result, tier string, shard, n int) {
 		}
 		for _, o := range opts {
 			rec(append(append([]pcall{}, cur...), o))
+		}
+	}
+	rec(nil)
+}
+
+// ---- self-destruct family ----------------------------------------------------------------------
+//
+// The parametric child P can also SELFDESTRUCT (to a fixed beneficiary), and calls can go through a
+// wrapper W that forwards calldata and value to P and then stops or reverts.  The root makes every
+// sequence of <= 3 calls from a menu of 8 (writes and self-destructs; direct / through a surviving
+// wrapper / through a reverting wrapper; with and without value); a trivial model applies the
+// surviving calls only (classic SELFDESTRUCT semantics: balance to the beneficiary at once, account
+// with code and storage deleted at the end of the transaction, anything it received after that is
+// destroyed with it).  This covers reverted and repeated self-destructs of a dirty contract.
+
+func sdChildCode(ben common.Address) []byte {
+	a := evmasm.New()
+	a.PushU(2).Op(evmasm.CALLDATALOAD).PushU(248).Op(evmasm.SHR).PushU(2).Op(evmasm.EQ).PushLabel("sd").Op(evmasm.JUMPI)
+	a.PushU(1).Op(evmasm.CALLDATALOAD).PushU(248).Op(evmasm.SHR)
+	a.PushU(0).Op(evmasm.CALLDATALOAD).PushU(248).Op(evmasm.SHR)
+	a.Op(evmasm.SSTORE)
+	a.PushU(2).Op(evmasm.CALLDATALOAD).PushU(248).Op(evmasm.SHR)
+	a.PushLabel("rev").Op(evmasm.JUMPI)
+	a.Stop()
+	a.Label("rev")
+	a.Revert()
+	a.Label("sd")
+	a.PushAddr(ben).Op(evmasm.SELFDESTRUCT)
+	return a.Bytes()
+}
+
+func sdWrapperCode(p common.Address) []byte {
+	a := evmasm.New()
+	a.Op(evmasm.CALLDATASIZE).PushU(0).PushU(0).Op(evmasm.CALLDATACOPY)
+	a.PushU(0).PushU(0).Op(evmasm.CALLDATASIZE).PushU(0).Op(evmasm.CALLVALUE).PushAddr(p).PushU(300000).Op(evmasm.CALL).Op(evmasm.POP)
+	a.PushU(3).Op(evmasm.CALLDATALOAD).PushU(248).Op(evmasm.SHR)
+	a.PushLabel("rev").Op(evmasm.JUMPI)
+	a.Stop()
+	a.Label("rev")
+	a.Revert()
+	return a.Bytes()
+}
+
+type sdcall struct {
+	name      string
+	slot, val byte
+	flag      byte // 0 stop, 1 revert, 2 self-destruct
+	via       byte // 0 direct, 1 wrapper that stops, 2 wrapper that reverts
+	value     int64
+}
+
+// SdWorker runs the self-destruct family (also used by C02 for its supply oracle).
+func SdWorker(f *Fixture, res *engine.Result, tier string, shard, n int) {
+	w := f.W
+	pAddr, rAddr, wAddr := world.ContractAddr(0x24), world.ContractAddr(0x25), world.ContractAddr(0x26)
+	ben := world.ContractAddr(0x27)
+	menu := []sdcall{
+		{"write(1=7,$0)", 1, 7, 0, 0, 0},
+		{"write(1=7,$3)", 1, 7, 0, 0, 3},
+		{"write(1=7,$3,revert)", 1, 7, 1, 0, 3},
+		{"W!{write(1=7,$3)}", 1, 7, 0, 2, 3},
+		{"W{write(2=9,$0)}", 2, 9, 0, 1, 0},
+		{"selfdestruct", 0, 0, 2, 0, 0},
+		{"W{selfdestruct}", 0, 0, 2, 1, 0},
+		{"W!{selfdestruct}", 0, 0, 2, 2, 0},
+	}
+	idx := 0
+	var rec func(cur []sdcall)
+	rec = func(cur []sdcall) {
+		if len(cur) >= 1 {
+			idx++
+			if idx%n == shard {
+				a := evmasm.New()
+				for _, c := range cur {
+					wf := byte(0)
+					if c.via == 2 {
+						wf = 1
+					}
+					d := a.Data([]byte{c.slot, c.val, c.flag, wf})
+					ln := a.CopyDataToMem(d, 0)
+					to := pAddr
+					if c.via != 0 {
+						to = wAddr
+					}
+					a.Call(evmasm.CALL, 600000, to, big.NewInt(c.value), 0, uint64(ln), 0, 0).Op(evmasm.POP)
+				}
+				a.Stop()
+				// the model
+				slots := map[uint64]uint64{1: 5}
+				balP, balB, balR := int64(0), int64(0), int64(20)
+				destroyed, anyUndone := false, false
+				var names []string
+				for _, c := range cur {
+					names = append(names, c.name)
+					if c.flag == 1 || c.via == 2 {
+						anyUndone = true
+						continue
+					}
+					balP += c.value
+					balR -= c.value
+					if c.flag == 2 {
+						balB += balP
+						balP = 0
+						destroyed = true
+					} else {
+						slots[uint64(c.slot)] = uint64(c.val)
+					}
+				}
+				burned := int64(0)
+				if destroyed {
+					slots = map[uint64]uint64{}
+					burned, balP = balP, 0
+				}
+				p := []string{"SD{" + strings.Join(names, " ") + "}"}
+				restore := w.Branch()
+				ctx := w.App.BaseApp.VerifDeliverCtx()
+				w.InstallContract(ctx, pAddr, sdChildCode(ben), map[uint64]uint64{1: 5})
+				w.InstallContract(ctx, wAddr, sdWrapperCode(pAddr), nil)
+				w.InstallContract(ctx, rAddr, a.Bytes(), nil)
+				nonce := w.App.AccountKeeper.GetAccount(ctx, w.Addrs[f.S]).GetSequence()
+				bz, _ := world.WrapEth(w.SignEth(w.Keys[f.S], world.EthSpec{Nonce: nonce, Gas: 5000000, To: &rAddr, Value: big.NewInt(20), GasPrice: big.NewInt(0)}))
+				preSupply := w.App.BankKeeper.GetSupply(ctx, world.Denom).Amount
+				r := w.Deliver(bz)
+				ctx = w.Ctx()
+				bal := func(ad common.Address) int64 {
+					return w.App.BankKeeper.GetBalance(ctx, sdk.AccAddress(ad.Bytes()), world.Denom).Amount.Int64()
+				}
+				got1, got2 := w.Slot(ctx, pAddr, 1).Uint64(), w.Slot(ctx, pAddr, 2).Uint64()
+				codeLen := len(w.App.EvmKeeper.GetCode(ctx, common.BytesToHash(w.App.EvmKeeper.GetAccountOrEmpty(ctx, pAddr).CodeHash)))
+				gP, gB, gR, gW := bal(pAddr), bal(ben), bal(rAddr), bal(wAddr)
+				supplyDelta := w.App.BankKeeper.GetSupply(ctx, world.Denom).Amount.Sub(preSupply).Int64()
+				restore()
+				res.Transitions++
+				res.Evaluations++
+				res.States[p[0]] = 0
+				res.Outcomes["selfdestruct-family"]++
+				if anyUndone {
+					res.Nontrivial[p[0]] = true
+				}
+				alive := codeLen > 0
+				if r.Code != 0 || got1 != slots[1] || got2 != slots[2] || alive == destroyed || gP != balP || gB != balB || gR != balR || gW != 0 || supplyDelta != -burned {
+					leak := "evm"
+					if supplyDelta != -burned {
+						leak = "supply"
+					}
+					res.AddViolation(engine.Violation{Signature: "C05|leaf=none|revertpos=selfdestruct-family|leak=" + leak,
+						What: "after reverted / repeated self-destructs the contract's existence, storage or balances are not what the surviving calls explain", Path: p,
+						Detail: map[string]any{"code": r.Code, "slot1": got1, "slot2": got2, "want_slots": fmt.Sprint(slots), "alive": alive, "want_destroyed": destroyed,
+							"balP": gP, "wantBalP": balP, "balBeneficiary": gB, "wantBalBeneficiary": balB, "balRoot": gR, "wantBalRoot": balR, "balWrapper": gW,
+							"supply_delta": supplyDelta, "want_supply_delta": -burned}})
+				}
+			}
+		}
+		if len(cur) == 3 {
+			return
+		}
+		for _, o := range menu {
+			rec(append(append([]sdcall{}, cur...), o))
 		}
 	}
 	rec(nil)
